@@ -63,6 +63,12 @@ PROP = {
         "GunYu.Props.C06.cache_consistent_after",
         "GunYu.Props.C06.delivers_something",
         "GunYu.Props.C06.storedCompat_needed",
+        "GunYu.Props.C06.continues_what_the_target_holds",
+        "GunYu.Props.C06.truthful_preserved",
+        "GunYu.Props.C06.truthful_source_change",
+        "GunYu.Props.C06.truthful_initially",
+        "GunYu.Props.C06.reset_on_full_needed",
+        "GunYu.Props.C06.no_relabel_at_start_needed",
     ],
     "expected_facts": EXPECTED_FACTS,
     "harness": [{"name": "C06", "pkg": "./syncer/", "test": "TestVerifC06",
@@ -86,6 +92,14 @@ PROP = {
             "snapshot => complete and either the one just sent (at the announced offset/size) or the cached one of a history agreeing "
             "below its offset and only with CONTINUE and without clearing; request offset == writer start + 1; log writer after "
             "FULLRESYNC at the announced offset; cache relabelled to id1 and read back == hist(id1). "
+            "Every 8th case is a restart-in-window schedule run with the REAL RedisOutput bookkeeping (syncer.newOutput, StartPoint, "
+            "SetRunId, ResetStartPoint, setCheckpoint / in-memory position; resume and non-resume mode) on the shared target double "
+            "behind a TCP bridge: history A replayed to X, then (full-interrupted) the source becomes B (failover with switch offset, "
+            "or unrelated), answers FULLRESYNC, the snapshot replay fails, the run / the process restarts; (restart-rekey) failover and "
+            "syncer restart with the cache lost or kept; (cached-interrupted) a cached snapshot beyond the stored position is replayed, "
+            "fails, the cache is lost. The monitor tracks what the target really holds (history, offset, dirty) and requires every log "
+            "delivery to start exactly there, in a prefix of the current history, never after an interrupted replay; the position the "
+            "real output holds after each round is compared with the Lean `step` (line `tgt`). "
             "distinct_nontrivial = distinct (backend, stored id class, cache id class, cache shape, stored-vs-cache, backlog, branch, "
             "full, delivered) combinations",
     "trusted": [
@@ -96,7 +110,10 @@ PROP = {
     "assumptions": [
         "CacheOK: bytes the cache holds under its run id are that id's history on the range it reports (provided by C05/C08); "
         "CacheWF: a cached log starts at the cached snapshot's offset and data exists only under a real id (D15's gap image is C08's)",
-        "StoredCompat: a resume position stored under the previous id while the cache is already labelled with the current id lies "
+        "Truthful (the stored position describes what the target holds) is an invariant proved for every sequence of connections, "
+        "interrupted replays, restarts and source changes of the repaired code (truthful_initially / _preserved / _source_change), "
+        "assuming the sender stores exactly the offset of the last command it applied (C01/C07) and a source's new run id is new. "
+        "The older label-based theorem keeps StoredCompat: a resume position stored under the previous id while the cache is already labelled with the current id lies "
         "in the shared prefix. syncMeta compares the stored id only with the set {id1,id2}; theorem storedCompat_needed shows the "
         "conclusion fails without it; the harness generates the combination, compares it with the model and counts it "
         "(storedcompat_excluded) instead of judging it. The tool re-keys the target's label in the same syncMeta call that relabels "
